@@ -168,6 +168,9 @@ def run(R):
         for f in repo.package_funcs():
             if 'timeout' in f.params and is_const(f.param_default('timeout'), -1):
                 fam.append(f)
+            elif 'timeout' in f.params and f.name == 'read_nonblocking' and f.cls is not None and f.cls.name != 'SpawnBase' \
+                    and any(isinstance(x, ast.Compare) and is_name(x.left, 'timeout') and is_const(x.comparators[0], -1) for x in ast.walk(f.node)):
+                fam.append(f)       # accepts -1 although it has no default (PopenSpawn)
         R.extra['sentinel_functions'] = [f.qual for f in fam]
         for f in fam:
             has_default_src = f.cls is not None and (repo.is_subclass(f.cls, 'SpawnBase') or f.cls.name == 'REPLWrapper') \
@@ -337,6 +340,15 @@ def check_wrappers(c, repo):
         c.check(ok, f, negs[0] if negs else h, 'a deadline that passed during the interruption returns "nothing ready"', kind='ast', tag='eintr-expired')
         eintr = [n for n in ast.walk(h) if isinstance(n, ast.If) and 'errno.EINTR' in norm(n.test)]
         ok = len(eintr) == 1 and any(isinstance(s, ast.Raise) and s.exc is None for s in eintr[0].orelse)
+        if eintr:
+            cpe = compare_parts(eintr[0].test)
+            ok = ok and cpe is not None and isinstance(cpe[1], ast.Eq) and norm(cpe[2]) == 'errno.EINTR' and norm(cpe[0]).endswith('.args[0]')
+            # the recomputation happens in the EINTR branch, under `timeout is not None`
+            inb = [r_ for r_ in rec if any(r_ is d for s_ in eintr[0].body for d in ast.walk(s_))]
+            gd = [n for n in ast.walk(eintr[0]) if isinstance(n, ast.If) and norm(n.test) == '%s is not None' % var and
+                  any(r_ is d for r_ in rec for s_ in n.body for d in ast.walk(s_))]
+            c.check(len(inb) == 1 and len(gd) == 1, f, eintr[0], 'only an interrupted wait (EINTR) is retried, with the remaining time recomputed unless timeout is None',
+                    witness=norm(eintr[0].test), kind='ast', tag='eintr-branch')
         c.check(ok, f, eintr[0] if eintr else h, 'errors other than EINTR are re-raised unchanged', kind='ast', tag='other-errors')
         # the primitive receives the (remaining) timeout
         prims = [k for k in calls_in(f.node) if (dotted(k.func) or '').endswith(prim) and dotted(k.func) != 'select.poll']
@@ -358,6 +370,13 @@ def check_wrappers(c, repo):
                     okp = okp and inl
             c.check(okp, f, k, 'poll is given the remaining timeout in milliseconds, recomputed in every retry (None = forever)',
                     witness=wit, kind='alg', tag='prim-timeout')
+        if prim == 'poll':
+            regs = [kk for kk in calls_in(f.node) if callee_last(kk) == 'register']
+            lp = [n for n in iter_nodes(f.node) if isinstance(n, ast.For)]
+            okr = len(regs) == 1 and len(lp) == 1 and is_name(lp[0].iter, f.params[0]) and isinstance(lp[0].target, ast.Name) and \
+                regs[0].args and is_name(regs[0].args[0], lp[0].target.id) and len(regs[0].args) == 2 and 'select.POLLIN' in norm(regs[0].args[1]) \
+                and any(regs[0] is d for d in ast.walk(lp[0]))
+            c.check(okr, f, regs[0] if regs else None, 'every descriptor asked for is registered for input events', witness=norm(regs[0]) if regs else 'no register()', kind='ast', tag='poll-register')
         # the primitive is inside the try inside the loop
         c.check(any(isinstance(p, ast.Try) for p in parent_chain(k)) and any(p is loops[0] for p in parent_chain(k)), f, k,
                 'the primitive is retried inside the loop', kind='ast', tag='retry')
@@ -604,6 +623,9 @@ MUTANTS = [
     ('select-eintr-no-recompute', 'utils', "                if timeout is not None:\n                    timeout = end_time - time.time()\n                    if timeout < 0:\n                        return([], [], [])", "                pass", 'D4'),
     ('poll-seconds', 'utils', "timeout_ms = None if timeout is None else timeout * 1000", "timeout_ms = None if timeout is None else timeout", 'D4'),
     ('poll-swallow-errors', 'utils', "                    if timeout < 0:\n                        return []\n            else:\n                # something else caused the select.error, so\n                # this actually is an exception.\n                raise", "                    if timeout < 0:\n                        return []\n            else:\n                return []", 'D4'),
+    ('popen-sentinel-inverted', 'popen_spawn', "        if timeout == -1:\n            timeout = self.timeout\n        if timeout is None:", "        if timeout != -1:\n            timeout = self.timeout\n        if timeout is None:", 'D1'),
+    ('select-eintr-inverted', 'utils', "            if err.args[0] == errno.EINTR:\n                # if we loop back we have to subtract the\n                # amount of time we already waited.\n                if timeout is not None:\n                    timeout = end_time - time.time()\n                    if timeout < 0:\n                        return([], [], [])", "            if err.args[0] != errno.EINTR:\n                # if we loop back we have to subtract the\n                # amount of time we already waited.\n                if timeout is not None:\n                    timeout = end_time - time.time()\n                    if timeout < 0:\n                        return([], [], [])", 'D4'),
+    ('poll-no-register', 'utils', "    for fd in fds:\n        poller.register(fd, select.POLLIN | select.POLLPRI | select.POLLHUP | select.POLLERR)\n", "", 'D4'),
     ('select-none', 'pty_spawn', "        if (timeout != 0) and select(timeout):", "        if (timeout != 0) and select(None):", 'D5'),
     ('select-default', 'pty_spawn', "        if (timeout != 0) and select(timeout):", "        if (timeout != 0) and select(self.timeout):", 'D5'),
     ('first-poll-blocks', 'pty_spawn', "        if select(0):\n            try:\n                incoming = super(spawn, self).read_nonblocking(size)", "        if select(1):\n            try:\n                incoming = super(spawn, self).read_nonblocking(size)", 'D8'),
